@@ -120,6 +120,10 @@ func genSpec(id int, rng *rand.Rand, restrictJSONStream, oversize bool) *seqSpec
 			}
 		}
 		r := newRequest(rng, s.proto, k, opts)
+		if v.leg == "http" && fitsLimitEligible(r) && rng.Intn(4) == 0 {
+			// a caller that announces a response limit which this reply fits
+			r.limitFill = drawFill(rng)
+		}
 		unanswered[c] = r.oneway || r.lenient
 		r.idx = i
 		r.conn = c
@@ -520,6 +524,23 @@ func runSequence(s *seqSpec, broker *rig.NatsServer) *seqResult {
 					r := s.reqs[i]
 					var f []byte
 					var errText string
+					if r.limitFill > 0 {
+						// what this request's reply weighs: the same frame posted
+						// without a limit (a measurement, not the judged reply)
+						var mf []byte
+						var mst int
+						var merr string
+						if _, ok := sendWithWatchdog(deadline, func() error { mf, mst, merr = leg.post(r.frame, 0); return nil }); !ok {
+							res.inconc(fmt.Sprintf("sequence %d (http/%s): measuring POST of request %d (%s) unanswered after %v", s.id, s.proto, r.idx, r.kindName(), watchdog))
+							return
+						}
+						if mst == 200 && merr == "" && len(mf) > 4 {
+							r.unlimitedLen = len(mf)
+							r.respLimit = limitFor(len(mf), r.limitFill)
+						}
+						// otherwise there is no reply frame to measure: the request goes
+						// out without a limit and is judged like any other
+					}
 					_, ok := sendWithWatchdog(deadline, func() error { f, r.httpStatus, errText = leg.post(r.frame, r.respLimit); return nil })
 					if !ok {
 						res.inconc(fmt.Sprintf("sequence %d (http/%s): POST of request %d (%s) unanswered after %v", s.id, s.proto, r.idx, r.kindName(), watchdog))
@@ -687,6 +708,9 @@ func judge(run verdictSink, s *seqSpec, res *seqResult) {
 			w["reply_frames_hex"] = reps
 			if r.sendErr != "" {
 				w["transport_error"] = r.sendErr
+			}
+			if r.respLimit > 0 {
+				w["announced_x_frugal_payload_limit"] = r.respLimit
 			}
 			var before []string
 			for _, q := range s.perConn[r.conn] {
@@ -869,6 +893,9 @@ func judge(run verdictSink, s *seqSpec, res *seqResult) {
 			if r.httpStatus != 413 {
 				run.Violation("C14:reply-over-client-limit-not-refused:http:"+s.proto, fmt.Sprintf("the client announced x-frugal-payload-limit %d, the reply is larger; want HTTP 413, got status %d, %d frame(s) %s", r.respLimit, r.httpStatus, n, r.sendErr), witness(r, nil))
 			}
+			continue
+		}
+		if judgeWithinLimit(run, s, r, witness) {
 			continue
 		}
 		if r.sendErr != "" {
